@@ -39,7 +39,25 @@ INLINE = ["em", "i", "strong", "b", "code", "a", "img", "br", "span", "u"]
 IGNORABLE = ["script", "style", "title"]
 STYLES = ["font-weight: bold", "font-style:italic", "font-weight:400;font-style: italic", "color: red", "font-weight", ""]
 WORDS = ["foo", "bar", "a", "x y", " lead", "trail ", "two  spaces", "new\nline", "&amp;", "&lt;b&gt;", "é😀", "tab\there",
-         "10\u00a0km", "\u00a0indented", "em\u2003space", "&nbsp;x"]
+         "10\u00a0km", "\u00a0indented", "em\u2003space", "&nbsp;x",
+         # control characters the HTML parser lets through: form feed (HTML white space), vertical tab, a C0 control
+         "form&#12;feed", "v&#11;tab", "ctl&#1;x", "raw\x0cff"]
+
+
+
+_CTL = re.compile("[\x00-\x08\x0b\x0c\x0e-\x1f]")
+
+
+def html_fragment(html):
+    """the DOM of an HTML fragment under a `document-fragment` root, as `from_html` builds it: lxml's own
+    `fragment_fromstring(create_parent=…)` refuses leading text with control characters, so the root is made here and the
+    leading text stored XML-compatible (form feed / vertical tab -> space, other C0 controls -> U+FFFD)"""
+    parts = lxml.html.fragments_fromstring(html)
+    root = lxml.html.Element("document-fragment")
+    if parts and isinstance(parts[0], str):
+        root.text = _CTL.sub(lambda m: " " if m.group() in "\x0b\x0c" else "\ufffd", parts.pop(0))
+    root.extend(parts)
+    return root
 
 
 def gen_html(rng, depth=0):
@@ -875,7 +893,7 @@ def run(ctx):
         # the same parse once more, recorded, for the placement-core tie (and a parse_slice of the same DOM)
         info = infos[name]
         sid = ctx.driver.add_schema(info)
-        dom = lxml.html.fragment_fromstring(html, create_parent="document-fragment")
+        dom = html_fragment(html)
         (st_r, doc_r), pcs = recorded(info, lambda: parsers[name].parse(dom))
         if st_r == "ok" and len(pcs) == 1 and pcs[0]._supported and doc_r.to_json() == j:
             preqs.append(placement_request(info, sid, pcs[0]))
@@ -921,7 +939,7 @@ def run(ctx):
     sparser = DOMParser.from_schema(sinfo.schema)
     for html in EDGE_HTML:
         sid = ctx.driver.add_schema(sinfo)
-        dom = lxml.html.fragment_fromstring(html, create_parent="document-fragment")
+        dom = html_fragment(html)
         (st_r, doc_r), pcs = recorded(sinfo, lambda: sparser.parse(dom))
         if st_r == "ok" and len(pcs) == 1 and pcs[0]._supported:
             preqs.append(placement_request(sinfo, sid, pcs[0]))
